@@ -805,6 +805,65 @@ class SA:
     def fill(self, v):
         self[...] = v
 
+    def clip(self, lo=None, hi=None, out=None):
+        r = self
+        if lo is not None:
+            r = SA(_map(lambda x: _max2(x, lo), r.a), self.kind)
+        if hi is not None:
+            r = SA(_map(lambda x: _min2(x, hi), r.a), self.kind)
+        if out is not None:
+            out._inplace(r)
+            return out
+        return r
+
+    def mean(self, axis=None):
+        if axis is not None:
+            raise Unsupported("mean(axis)")
+        n = self.a.size
+        if n == 0:
+            raise Unsupported("mean of empty array (nan)")
+        return np_sum(self) / n
+
+    def prod(self, axis=None):
+        r = 1
+        for x in self.a.ravel():
+            r = r * x
+        return r
+
+    def cumsum(self):
+        return np_cumsum(self)
+
+    def squeeze(self):
+        return SA(self.a.squeeze(), self.kind)
+
+    def transpose(self, *axes):
+        return SA(self.a.transpose(*axes), self.kind)
+
+    def take(self, idx, axis=None):
+        return self[idx] if axis is None else SA(self.a.take(SA(idx)._key1(SA(idx), self.a.shape[axis]) if isinstance(idx, SA) else idx, axis=axis), self.kind)
+
+    def argmax(self):
+        xs = list(self.a.ravel())
+        best = 0
+        for i in range(1, len(xs)):
+            if bool(xs[i] > xs[best]):
+                best = i
+        return best
+
+    def argmin(self):
+        xs = list(self.a.ravel())
+        best = 0
+        for i in range(1, len(xs)):
+            if bool(xs[i] < xs[best]):
+                best = i
+        return best
+
+    def __getattr__(self, name):
+        # an ndarray method the symbolic array does not model: inconclusive, never a bogus crash
+        if not name.startswith("__") and hasattr(rnp.ndarray, name):
+            raise Unsupported(f"ndarray.{name} is not modelled by the symbolic array")
+        raise AttributeError(name)
+
     def __repr__(self):
         return f"SA<{self.kind}>({self.a.tolist()})"
 
